@@ -234,7 +234,7 @@ def par_map(fn, chunks, procs=None):
     if procs == 1 or len(chunks) == 1:
         return [fn(c) for c in chunks]
     with mp.get_context("fork").Pool(procs) as p:
-        return p.map(fn, chunks)
+        return p.map_async(fn, chunks).get(timeout=int(os.environ.get('VERIF_POOL_TIMEOUT', '7200')))
 
 
 # --------------------------------------------------------------------------
@@ -303,7 +303,7 @@ class Check:
                     "concrete": False})
         if a["obligations"] == 0:
             self.exit_tool("no theorems found for " + self.id)
-        ok, out = lean_build(["SmVerif"])     # the executable model + drivers
+        ok, out = lean_build(["SmVerif.Drivers"])     # the executable model + drivers
         if not ok:
             self.exit_tool("model drivers do not build: " + out[-1500:])
         return a["discharged"] == a["obligations"]
@@ -346,10 +346,6 @@ class Check:
         any_concrete = any(v["concrete"] for v in uniq)
         n = 0
         for v in uniq:
-            if any_concrete and not v["concrete"]:
-                # a broken proof/correspondence for which a concrete failing input was found
-                # elsewhere in this run is reported through that input
-                continue
             n += 1
             rp = os.path.join(VERIF, "evidence", "replays", f"{self.id}-{n}.json")
             with open(rp, "w") as f:
